@@ -255,7 +255,7 @@ pub fn run(id: &str, cfg: &RunCfg) -> PropResult {
             let ng = if cfg.thorough { 60_000 } else { 1_500 };
             r.merge(crate::report::run_parallel_tagged('g', ng, workers(), |i| super::racelanes::retarget_window_case(cfg.seed, i)));
         }
-        if id == "C03" {
+        if id == "C03" || id == "C02" {
             // schedule part: a second thread's update let loose inside a suspend closure
             let nu = if cfg.thorough { 40_000 } else { 1_200 };
             r.merge(crate::report::run_parallel_tagged('u', nu, workers(), |i| super::racelanes::suspend_race_case(cfg.seed, i)));
